@@ -14,8 +14,8 @@ type Problem struct {
 
 type Stats struct {
 	Rules, Pairs, Edges, RuneChecks, Actions int
-	Notes                                   []string
-	Samples                                 []string
+	Notes                                    []string
+	Samples                                  []string
 }
 
 type cmpState struct {
